@@ -249,8 +249,29 @@ func (c *Ctx) c14Import() {
 					status = ev.Value
 				}
 			}
+			// net/http decodes a compressed response transparently only when the request did not ask for an encoding itself: an
+			// explicit Accept-Encoding hands the still-encoded body to Restore whenever anything between the peers compresses
+			for _, ev := range g.events {
+				if ev.Kind == pw.EvCall && (ev.Role == "Std:http.Header.Set" || ev.Role == "Std:http.Header.Add") && len(ev.Args) == 2 && strings.EqualFold(constString(ev.Args[0]), "Accept-Encoding") {
+					decoded := false
+					if restore != nil {
+						for _, e2 := range g.events {
+							if e2.Kind == pw.EvCall && (strings.HasPrefix(e2.Role, "Std:gzip.NewReader") || strings.HasPrefix(e2.Role, "Std:flate.NewReader") || strings.HasPrefix(e2.Role, "Std:zlib.NewReader")) {
+								decoded = true
+							}
+						}
+					}
+					if !decoded {
+						r.Bad("R14.2", "HTTPTransfer.Import", "accept-encoding-set", c.Pos(ev.Pos), "the request sets Accept-Encoding itself, which switches off the transport's transparent decoding, and the body is handed to Restore undecoded: behind any compressing middleware nothing is imported", shortTrace(p))
+					}
+				}
+			}
 			if restore == nil {
 				nSkip++
+				// a skipped restore needs a reason: transport error or a status other than 200
+				if nilTri(p, rt.Results[1]) == triTrue && status != nil && p.Rel(status, e.IntConst(200)) == pw.REq {
+					r.Bad("R14.2", "HTTPTransfer.Import", "success-response-not-restored", c.Pos(rt.Pos), "an iteration that received status 200 without transport error ends without handing the body to Restore: the cache stays empty although the exporter served its dump", shortTrace(p))
+				}
 				continue
 			}
 			nRestore++
